@@ -407,8 +407,21 @@ func (c *Ctx) mck(which map[string]bool) {
 
 	if which["MCK-6"] {
 		n := 0
+		producers := c.closuresOf("NewPublishExchangeStub")
+		// the producer may be a named function started with go (introduced later)
 		for _, cl := range c.closuresOf("NewPublishExchangeStub") {
-			if !c.isGoTargetOf(cl) {
+			for _, b := range cl.Blocks {
+				for _, ins := range b.Instrs {
+					if g, ok := ins.(*ssa.Go); ok {
+						if f := g.Call.StaticCallee(); f != nil && f.Parent() == nil && c.isNewHelper(f) {
+							producers = append(producers, f)
+						}
+					}
+				}
+			}
+		}
+		for _, cl := range producers {
+			if cl.Parent() != nil && !c.isGoTargetOf(cl) {
 				continue
 			}
 			n++
@@ -490,6 +503,30 @@ func (c *Ctx) mck(which map[string]bool) {
 			blk.done(2, "Delay is examined; zero returns, non-zero sleeps")
 		}
 		c.S.Floor("MCK-6", "exchange stub goroutines", n, 1)
+		// the script is played by the producer goroutine alone: no other code of the
+		// stub sends on or closes the exchange channel (a second player would need
+		// the same treatment of ErrClosed and block entries, clause by clause)
+		for _, cl := range c.closuresOf("NewPublishExchangeStub") {
+			if c.isGoTargetOf(cl) {
+				continue
+			}
+			a := c.acc("MCK-6", cl, "exchange-channel-fed-only-by-the-producer-goroutine")
+			for _, p := range c.Paths("MCK-6", cl) {
+				bad := -1
+				for i := range p.Events {
+					e := &p.Events[i]
+					if (e.Kind == pathx.KSend || e.Kind == pathx.KClose) && e.Fn == cl && e.Chan != nil && strings.HasSuffix(e.Chan.Type().String(), "chan error") {
+						bad = i
+					}
+				}
+				if bad >= 0 {
+					a.fail(p, bad, "the stub itself sends on or closes the exchange channel, next to the producer goroutine: entries are delivered (or the channel closed) without the script's ErrClosed and block rules")
+				} else {
+					a.pass()
+				}
+			}
+			a.done(1, "the stub only makes the channel and starts the producer")
+		}
 	}
 }
 
